@@ -169,6 +169,22 @@ def run(ctx):
         for v in (tx.locktime, (1 << 32) | (tx.locktime & 0xffffffff), (1 << 32) + 5, (1 << 31) + 5, (1 << 39) - 1, 0x7fffffff, 0x80000000, 0xffffffff):
             lk.append(f"CHECKLOCK L {tx.hex()} {nin} {v}")
     ctx.compare("locktime-use-sites", lk, ctx.harness_sharded(lk), ctx.driver_sharded(lk, "model"), ctx.driver_sharded(lk, "spec"), nontrivial=lambda c, im: im == "1")
+    # the same decoding rules when the operation comes from `exec` instead of the script (size limit, minimal encoding)
+    from .c16 import exec_line, canon as canon16
+    el = []
+    ops = ["OP_1ADD", "OP_1SUB", "OP_NEGATE", "OP_ABS", "OP_NOT", "OP_0NOTEQUAL", "OP_PICK", "OP_ROLL", "OP_CHECKLOCKTIMEVERIFY", "OP_CHECKSEQUENCEVERIFY"]
+    operands = [b"", b"\x00", b"\x80", b"\x05\x00", b"\x00\x00", b"\x05\x80", b"\xff\xff\xff\x7f", b"\x00\x00\x00\x80\x00", b"\x01\x02\x03\x04\x05", b"\x01\x02\x03\x04\x05\x06", b"\x01"]
+    for opn in ops:
+        for v in operands:
+            for fl in (R.STD, R.STD & ~(1 << R.FLAG_BITS["MINIMALDATA"])):
+                for sv in (0, 1, 3):
+                    el.append(exec_line(sv, fl, b"\x51", [b"\x07", v], b"", 0, [opn], weight=(1000 if sv == 3 else None)))
+    for v in operands:
+        el.append(exec_line(0, R.STD, b"\x51", [v, b"\x01"], b"", 0, ["OP_ADD"]))
+        el.append(exec_line(0, R.STD, b"\x51", [b"\x01", v], b"", 0, ["OP_ADD"]))
+        el.append(exec_line(3, R.STD, b"\x51", [b"", v, b"\x44" * 32], b"", 0, ["OP_CHECKSIGADD"], weight=1000))
+    ctx.compare("scriptnum-use-sites-exec", el, ctx.harness_sharded(el), ctx.driver_sharded(el, "model"), ctx.driver_sharded(el, "spec"), observable=canon16,
+                nontrivial=lambda c, im: "result=" in im)
     ll = literal_lines(ctx)
     ctx.compare("decimal-literals", ll, ctx.harness_sharded(ll), ctx.driver_sharded(ll, "model"), ctx.driver_sharded(ll, "spec"))
     sw = sweep_lines(ctx)
